@@ -7,9 +7,10 @@
       (parent (j-1)/2, children 2i+1 / 2i+2, the right child is taken only when
       strictly less than the left one, [down] reports whether the element moved).
     - pkg/scheduler/scheduler_util/priority_queue.go : [PriorityQueue.Push] incl.
-      the finite [maxQueueSize] branch ([heap.Remove(q, maxQueueSize)]), [Pop]
-      (nil on empty), [Peek], [Fix], [Len]/[Empty] — [pq_push], [pq_pop],
-      [pq_peek], [pq_fix].
+      the finite [maxQueueSize] branch ([heap.Remove(q, q.indexOfLast())]),
+      [priorityQueue.indexOfLast], [Pop] (nil on empty), [Peek], [Fix],
+      [Len]/[Empty] — [pq_push], [index_of_last], [pq_pop], [pq_peek], [pq_fix].
+      [pq_push_v0] is [Push] before commit 4521da5 ([heap.Remove(q, maxQueueSize)]).
     - pkg/scheduler/plugins/priority/priority.go : [JobOrderFn] — [priority_cmp].
     - pkg/scheduler/plugins/elastic/elastic.go : [minAvailableState],
       [JobOrderFn] — [min_available_state], [elastic_cmp].
@@ -160,8 +161,33 @@ Section Heap.
     end.
 
   (** * scheduler_util.PriorityQueue *)
-  (** [Push]; [maxsize = -1] is QueueCapacityInfinite *)
+  (** [priorityQueue.indexOfLast]: the loop [for i := last + 1; i < n; i++] with
+      [last] starting at [n / 2]; [steps] = the number of iterations left *)
+  Fixpoint iol_scan (l : list A) (last i steps : nat) : nat :=
+    match steps with
+    | O => last
+    | S s => iol_scan l (if lessi l last i then i else last) (S i) s
+    end.
+
+  Definition index_of_last (l : list A) : nat :=
+    let n := length l in
+    let last := (n / 2)%nat in
+    iol_scan l last (S last) (n - S last).
+
+  (** [Push]; [maxsize = -1] is QueueCapacityInfinite. On overflow the item at
+      [indexOfLast()] is removed (the first maximal one among the leaves of the
+      heap). A negative [maxsize] other than -1 overflows on every push. *)
   Definition pq_push (maxsize : Z) (l : list A) (x : A) : res (list A) :=
+    l1 <- h_push l x ;;
+    if negb (maxsize =? -1) && (maxsize <? Z.of_nat (length l1)) then
+      r <- h_remove l1 (index_of_last l1) ;; Ok (snd r)
+    else Ok l1.
+
+  (** [Push] as it was before commit 4521da5: on overflow [heap.Remove(q, maxsize)],
+      i.e. whatever sits at slice index [maxsize] (an arbitrary leaf). Kept only
+      for the documented refutation (C16_finite_depth_v0_refuted); nothing in the
+      model below uses it. *)
+  Definition pq_push_v0 (maxsize : Z) (l : list A) (x : A) : res (list A) :=
     l1 <- h_push l x ;;
     if negb (maxsize =? -1) && (maxsize <? Z.of_nat (length l1)) then
       if maxsize <? 0 then Panic
